@@ -599,6 +599,9 @@ func providerFunc(c *spec.Case, p *spec.Prov, from string) string {
 	if p.Method {
 		return fmt.Sprintf("func (FactoryT) %s(%s) %s {\n%s}\n\n", p.Name, ps, rs, providerBody(c, p, from))
 	}
+	if p.FuncVar {
+		return fmt.Sprintf("var %s = func(%s) %s {\n%s}\n\n", p.Name, ps, rs, providerBody(c, p, from))
+	}
 	return fmt.Sprintf("func %s(%s) %s {\n%s}\n\n", p.Name, ps, rs, providerBody(c, p, from))
 }
 
@@ -641,6 +644,33 @@ func provRef(c *spec.Case, p *spec.Prov) string {
 
 // ElemExpr renders one Inject/Set argument.
 func ElemExpr(c *spec.Case, e *spec.Elem) string {
+	if e.Hoist != "" {
+		return e.Hoist // declared by hoistedVars
+	}
+	x := elemExpr(c, e)
+	if e.Paren && e.Kind != "set" {
+		return "(" + x + ")"
+	}
+	return x
+}
+
+// hoistedVars declares the package-level variables that hold hoisted elements.
+func hoistedVars(c *spec.Case, es []spec.Elem, seen map[string]bool) string {
+	var sb strings.Builder
+	for i := range es {
+		e := &es[i]
+		if e.Hoist != "" && !seen[e.Hoist] {
+			seen[e.Hoist] = true
+			fmt.Fprintf(&sb, "var %s = %s\n\n", e.Hoist, elemExpr(c, e))
+		}
+		if e.Kind == "inline" {
+			sb.WriteString(hoistedVars(c, e.Inline, seen))
+		}
+	}
+	return sb.String()
+}
+
+func elemExpr(c *spec.Case, e *spec.Elem) string {
 	k := kname(c)
 	wrap := func(inner string) string {
 		bind := func(s string) string {
@@ -695,8 +725,13 @@ func fileSource(c *spec.Case, f *spec.File) string {
 	if f.MultiVar && len(f.Sets) >= 2 {
 		// one var statement with several names: var a, b = Set(...), Set(...)
 		var names, vals []string
+		aliases := ""
 		for i := range f.Sets {
 			s := &f.Sets[i]
+			if s.AliasOf != "" {
+				aliases += fmt.Sprintf("var %s = %s\n\n", s.Name, s.AliasOf)
+				continue
+			}
 			names = append(names, s.Name)
 			var parts []string
 			for j := range s.Elems {
@@ -707,24 +742,57 @@ func fileSource(c *spec.Case, f *spec.File) string {
 				vals[len(vals)-1] = k + ".Set()"
 			}
 		}
-		fmt.Fprintf(&sb, "var %s = %s\n\n", strings.Join(names, ", "), strings.Join(vals, ", "))
+		if len(names) > 0 {
+			fmt.Fprintf(&sb, "var %s = %s\n\n", strings.Join(names, ", "), strings.Join(vals, ", "))
+		}
+		sb.WriteString(aliases)
 	} else {
 		for i := range f.Sets {
 			s := &f.Sets[i]
-			fmt.Fprintf(&sb, "var %s = %s.Set(\n", s.Name, k)
+			if s.AliasOf != "" {
+				fmt.Fprintf(&sb, "var %s = %s\n\n", s.Name, s.AliasOf)
+				continue
+			}
+			open, close := "", ""
+			if s.Paren {
+				open, close = "(", ")"
+			}
+			fmt.Fprintf(&sb, "var %s = %s%s.Set(\n", s.Name, open, k)
 			for j := range s.Elems {
 				fmt.Fprintf(&sb, "\t%s,\n", ElemExpr(c, &s.Elems[j]))
 			}
-			sb.WriteString(")\n\n")
+			sb.WriteString(")" + close + "\n\n")
 		}
 	}
-	for i := range f.Injectors {
-		in := &f.Injectors[i]
-		fmt.Fprintf(&sb, "var _ = %s.Inject[%s](\n\t%q,\n", k, c.Expr(in.Want, ""), in.Name)
+	hoisted := map[string]bool{}
+	injectCall := func(in *spec.Injector) string {
+		var ib strings.Builder
+		fmt.Fprintf(&ib, "%s.Inject[%s](\n\t%q,\n", k, c.Expr(in.Want, ""), in.Name)
 		for j := range in.Elems {
-			fmt.Fprintf(&sb, "\t%s,\n", ElemExpr(c, &in.Elems[j]))
+			fmt.Fprintf(&ib, "\t%s,\n", ElemExpr(c, &in.Elems[j]))
 		}
-		sb.WriteString(")\n\n")
+		ib.WriteString(")")
+		return ib.String()
+	}
+	for i := 0; i < len(f.Injectors); i++ {
+		in := &f.Injectors[i]
+		sb.WriteString(hoistedVars(c, in.Elems, hoisted))
+		switch {
+		case in.Form == "typed":
+			fmt.Fprintf(&sb, "var _ struct{} = %s\n\n", injectCall(in))
+		case in.Form == "named":
+			fmt.Fprintf(&sb, "var decl%s = %s\n\n", in.Name, injectCall(in))
+		case in.Form == "block":
+			fmt.Fprintf(&sb, "var (\n\tblock%s = 3\n\t_ = %s\n)\n\nfunc init() { _ = block%s }\n\n", in.Name, injectCall(in), in.Name)
+		case in.Form == "multi" && i+1 < len(f.Injectors):
+			// two declarations in one var statement
+			nx := &f.Injectors[i+1]
+			sb.WriteString(hoistedVars(c, nx.Elems, hoisted))
+			fmt.Fprintf(&sb, "var _, _ = %s, %s\n\n", injectCall(in), injectCall(nx))
+			i++
+		default:
+			fmt.Fprintf(&sb, "var _ = %s\n\n", injectCall(in))
+		}
 	}
 	return sb.String()
 }
